@@ -47,6 +47,19 @@ CHECKS["C14"] = dict(cat="other", technique="exhaustive panic-edge enumeration o
     note="Trusted: rustc MIR construction; std classification tables; caller-supplied iterator/reader methods do not panic. Not decided: coordinates and indices reproduced faithfully.",
     ref="§3 C14")
 
+CHECKS["C01"] = dict(cat="other", technique="MIR provenance / dominance rules on render(), its per-vertex closure, Scanline::fragments, the Target impls and the two front doors",
+    text="Decides the shape every perspective-correct pipeline must have (necessary conditions only): clip is fed the triangles assembled from the vertex shader's output wrapped by ClipVert::new and dominates tri_fill, whose input derives from iterating the clip output; position vec3(x, y, 1.0) and attribute are divided by the same w (component 3 of that clip position); only the divided position goes through render()'s own to_screen; Scanline::fragments divides every varying by the interpolated 1/w of the same fragment and both Target impls get fragments only through it; Batch::render and Camera::render forward their own fields / to_world.then(world_to_project()) and viewport in one unconditional call.",
+    note="Trusted: rustc MIR construction, fact serialiser. Not decided: anything numerical - image equality, pixel-centre rule, fan completeness, viewport orientation.",
+    ref="§3 C01")
+CHECKS["C12"] = dict(cat="other", technique="panic-edge enumeration with discharge; bounded-index provenance of each index component against its own axis; polynomial identities for the relative entry points",
+    text="Decides that neither bounded sampler can index out of range for any coordinate, in every feature configuration: the only panic edges below sample/sample_abs are the view's own bounds panic (discharged by each index component carrying `& mask` with mask = dim-1 under a dominating is_power_of_two assertion, resp. floor(clamp(x, 0.0, dim_f-1.0)) as u32, against the same axis), edges of the checked index maths (discharged by the Inner invariant for x<w, y<h) and f32::clamp's bound check; masks and Texture.w/h are verified at their construction sites; sample(tc) = sample_abs(uv(w*u, h*v)) as polynomial identities; SamplerOnce has no extra panic edge.",
+    note="Hypotheses taken from the property: non-empty texture, repeat sampler used with its own texture; dimensions < 2^24. Trusted: saturating float->int casts, f32::clamp semantics. Not decided: which texel is addressed.",
+    ref="§3 C12")
+CHECKS["C17"] = dict(cat="other", technique="syntactic ranking argument on the recursion (decreasing zero-guarded budget, sole cycle), constructor-invariant dominance, control dependence of the emit, abstract interpretation of step() over orderings",
+    text="Decides the structural clauses of approximate(): do_approx is the only recursion, every self-call passes max_dep-1 and is reachable only when max_dep != 0 (ranking function, also discharging the underflow), the initial budget is 10+len.ilog2() over [0,1]; BezierSpline is built only by new after len>=4 && len%3==1; the only emit is control-dependent on `max_dep==0 || halt(eval(mid) - lerp(eval(a),eval(b)))` and emits eval(a); the recursion covers [a,mid] then [mid,b]; step() returns min for t<=0 and max for t>=1 (all orderings); the last control point is pushed verbatim on every path after the recursion.",
+    note="Trusted: rustc MIR construction; the caller's halt closure terminates. Not decided: evaluator agreement, tangent, convex hull, continuity.",
+    ref="§3 C17")
+
 NA = {}
 
 
